@@ -59,7 +59,8 @@ pub fn pulse_responses_step(nmcp: usize, stage: usize, log_gain: bool, rate: usi
         let twin = run(0, false, 0.0, &vec![0.0; nmcp]);
         let pulses: Vec<usize> = (0..twin.len()).filter(|i| twin[*i] != 0.0).collect();
         if pulses.len() < 3 {
-            die("excitation twin produced fewer than three pulses");
+            // (inside `guarded`: reported as a panic event of the code under test, not as a tool error)
+            panic!("a 20 Hz voiced run of three periods contains fewer than three excitation pulses");
         }
         let start = pulses[2];
         let end = pulses.get(3).copied().unwrap_or(twin.len());
